@@ -156,3 +156,366 @@ Fixpoint ru_run (fx : fixes) (c : cid) (s : rstore) (cache : list N) (ops : list
       let '(outs, cmds') := ru_run fx c (exec_all s cmds) cache' r in
       (out :: outs, cmds ++ cmds')
   end.
+
+(* ====================================================================================
+   PART 2: the broker.  Sessions, the in-memory subscription index (flat: Model/SubSpec.v,
+   which the trie refines - Props/C02.v), per-session queue and unack objects, and for
+   every client event the journal it produces: storage commands interleaved with the
+   packets the broker writes.  Handlers run to completion (the harness waits for the
+   broker to be quiet after every client packet); the asynchronous delivery loop of a
+   connection is the separate event EPoll.  Packet ids given to outgoing messages are chosen
+   by the packet id limiter; the model takes them as an argument of the event.
+   Configuration: the defaults (onlyonce delivery, max_queued 1000, max_inflight 100,
+   in-flight expiry > 0, session expiry cap 2 h, queue_qos0 on), MQTT 5 clients, no wills, no
+   retained messages.  The clock does not advance (nothing expires within a history). *)
+Require Import GM.Model.SubSpec.
+
+Definition IFEXP : N := 30000.
+Definition MAXQ : nat := 1000.
+Definition MAXINFLIGHT : nat := 100.
+Definition MAXPACKET : N := 4294967295.     (* ClientMaxPacketSize when the client sets none *)
+
+Record bclient := {
+  bc_online : bool;
+  bc_q : option rq;           (* srv.queueStore[cid] *)
+  bc_ua : option (list N) }.  (* srv.unackStore[cid]: the cache of the store object *)
+
+Record broker := {
+  b_store : rstore;
+  b_subs : spec;                         (* the subscription index *)
+  b_clients : list (cid * bclient) }.
+
+Definition b_get (c : cid) (b : broker) : option bclient := aget c (b_clients b).
+Definition b_set (c : cid) (x : bclient) (b : broker) : broker :=
+  {| b_store := b_store b; b_subs := b_subs b; b_clients := aset c x (b_clients b) |}.
+Definition b_with_store (s : rstore) (b : broker) : broker :=
+  {| b_store := s; b_subs := b_subs b; b_clients := b_clients b |}.
+Definition b_with_subs (sp : spec) (b : broker) : broker :=
+  {| b_store := b_store b; b_subs := sp; b_clients := b_clients b |}.
+
+Definition broker0 : broker := {| b_store := []; b_subs := []; b_clients := [] |}.
+
+(* what the broker writes to a client *)
+Inductive bout :=
+| OConnack (c : cid) (sp : bool)
+| OSuback (c : cid) (pid : N)
+| OUnsuback (c : cid) (pid : N)
+| OPuback (c : cid) (pid : N)
+| OPubrec (c : cid) (pid : N)
+| OPubcomp (c : cid) (pid : N)
+| OPubrel (c : cid) (pid : N)
+| ODeliver (c : cid) (dup : bool) (qos : N) (payload : str) (pid : N).
+
+Inductive jentry := JCmd (c : rcmd) | JOut (o : bout).
+
+Fixpoint jcmds (j : list jentry) : list rcmd :=
+  match j with
+  | [] => []
+  | JCmd c :: r => c :: jcmds r
+  | JOut _ :: r => jcmds r
+  end.
+
+(* client events *)
+Inductive bevent :=
+| EConnect (c : cid) (clean : bool) (expiry : N) (pids : list N)   (* pids: ids given to the messages delivered right after CONNACK *)
+| EClose (c : cid)
+| ESubscribe (c : cid) (pid : N) (subs : list sub)
+| EUnsubscribe (c : cid) (pid : N) (topics : list str)
+| EPublish (c : cid) (qos pid : N) (topic payload : str)
+| EPubrel (c : cid) (pid : N)
+| EPoll (c : cid) (pids : list N)
+| EPuback (c : cid) (pid : N)
+| EPubrec (c : cid) (pid : N)
+| EPubcomp (c : cid) (pid : N).
+
+(* ---------- session store ---------- *)
+Definition F_CLIENT_ID : str := [99; 108; 105; 101; 110; 116; 95; 105; 100].
+Definition F_WILL : str := [119; 105; 108; 108].
+Definition F_WILL_DELAY : str := [119; 105; 108; 108; 95; 100; 101; 108; 97; 121; 95; 105; 110; 116; 101; 114; 118; 97; 108].
+Definition F_CONNECTED_AT : str := [99; 111; 110; 110; 101; 99; 116; 101; 100; 95; 97; 116].
+Definition F_EXPIRY : str := [101; 120; 112; 105; 114; 121; 95; 105; 110; 116; 101; 114; 118; 97; 108].
+
+(* sessionStore.Set; connected_at is a wall clock value, masked to 0 on both sides *)
+Definition sess_set_cmd (c : cid) (expiry : N) : rcmd :=
+  CHSet (sess_key c) [(F_CLIENT_ID, BRaw c); (F_WILL, BRaw []); (F_WILL_DELAY, BRaw (dec 0));
+                      (F_CONNECTED_AT, BRaw (dec 0)); (F_EXPIRY, BRaw (dec expiry))].
+
+Definition raw_of (b : option blob) : str := match b with Some (BRaw x) => x | _ => [] end.
+
+(* sessionStore.Get: HMGET of a missing key yields an all-empty session (client id "") *)
+Definition sess_get (c : cid) (s : rstore) : option (cid * N) :=
+  match hgetall (sess_key c) s with
+  | None => None                                   (* WRONGTYPE: Get fails *)
+  | Some h => Some (raw_of (aget F_CLIENT_ID h),
+                    match undec (raw_of (aget F_EXPIRY h)) 0 with Some n => n | None => 0 end)
+  end.
+
+(* ---------- delivery ---------- *)
+Definition sub_matches (topic : str) (publisher : cid) (e : skey * sub) : bool :=
+  let '((c, g, f), s) := e in
+  is_empty g && topic_match topic f && negb (s_nl s && str_eqb c publisher).
+
+Fixpoint insert_sorted (x : N) (l : list N) : list N :=
+  match l with
+  | [] => [x]
+  | y :: r => if x <=? y then x :: l else y :: insert_sorted x r
+  end.
+Definition sort_ids (l : list N) : list N := fold_right insert_sorted [] l.
+
+(* onlyonce mode: one copy per client, QoS = min(publish QoS, highest matching subscription QoS),
+   all non-zero subscription identifiers of the matching subscriptions (the order follows
+   Go's map iteration; it is canonicalised - sorted - on both sides) *)
+Definition client_match (topic : str) (publisher c : cid) (sp : spec) : option (N * list N) :=
+  match filter (fun e => str_eqb (fst (fst (fst e))) c && sub_matches topic publisher e) sp with
+  | [] => None
+  | ms => Some (fold_left N.max (map (fun e => s_qos (snd e)) ms) 0,
+                sort_ids (filter (fun i => negb (i =? 0)) (map (fun e => s_id (snd e)) ms)))
+  end.
+
+Definition mk_msg (qos : N) (topic payload : str) (subids : list N) : msg :=
+  {| m_dup := false; m_qos := qos; m_retained := false; m_topic := topic; m_payload := payload; m_pid := 0;
+     m_ctype := []; m_corr := []; m_expiry := 0; m_pfmt := 0; m_resp := []; m_subids := subids; m_uprops := [] |}.
+
+(* the message expiry of the configuration (2 h) is set on every queued element *)
+Definition MSGEXP : N := 7200000.
+Definition mk_elem (m : msg) : elem := {| e_tag := 0; e_at := 0; e_expiry := Some MSGEXP; e_body := QPub m |}.
+
+(* Add to every matching session's queue, in the order of the client table *)
+Fixpoint deliver (topic payload : str) (qos : N) (publisher : cid) (sp : spec)
+                 (cl : list (cid * bclient)) (s : rstore) : list (cid * bclient) * rstore * list rcmd :=
+  match cl with
+  | [] => ([], s, [])
+  | (c, x) :: r =>
+      match bc_q x, client_match topic publisher c sp with
+      | Some q, Some (sq, ids) =>
+          let res := rq_add 0 (mk_elem (mk_msg (N.min qos sq) topic payload ids)) s q in
+          let x' := {| bc_online := bc_online x; bc_q := Some (r_q res); bc_ua := bc_ua x |} in
+          let '(r', s', cmds) := deliver topic payload qos publisher sp r (r_store res) in
+          ((c, x') :: r', s', r_cmds res ++ cmds)
+      | _, _ => let '(r', s', cmds) := deliver topic payload qos publisher sp r s in ((c, x) :: r', s', cmds)
+      end
+  end.
+
+Definition any_match (topic : str) (publisher : cid) (sp : spec) (cl : list (cid * bclient)) : bool :=
+  existsb (fun cx => match bc_q (snd cx), client_match topic publisher (fst cx) sp with Some _, Some _ => true | _, _ => false end) cl.
+
+(* ---------- the delivery loop of a connection ---------- *)
+Definition deliveries_of (c : cid) (dup : bool) (l : list elem) : list jentry :=
+  map (fun e => match e_body e with
+                | QPub m => JOut (ODeliver c dup (m_qos m) (m_payload m) (m_pid m))
+                | QRel p => JOut (OPubrel c p)
+                end) l.
+
+Fixpoint filler (n : nat) : list N := match n with O => [] | S k => 0 :: filler k end.
+
+(* pollNewMessages: one Read with the ids the limiter handed out (those used come first) *)
+Definition poll_new (c : cid) (pids : list N) (s : rstore) (q : rq) : rstore * rq * list jentry :=
+  let res := rq_read 0 (pids ++ filler (MAXINFLIGHT - length pids)) s q in
+  match r_out res with
+  | RRead rs _ => (r_store res, r_q res, map JCmd (r_cmds res) ++ deliveries_of c false rs)
+  | _ => (r_store res, r_q res, map JCmd (r_cmds res))
+  end.
+
+(* pollInflights until it returns nothing *)
+Fixpoint poll_inflight (fuel : nat) (c : cid) (s : rstore) (q : rq) : rstore * rq * list jentry :=
+  match fuel with
+  | O => (s, q, [])
+  | S k =>
+      let res := rq_read_inflight 0 MAXINFLIGHT s q in
+      match r_out res with
+      | RReadInflight (e :: rs) =>
+          let '(s', q', j) := poll_inflight k c (r_store res) (r_q res) in
+          (s', q', map JCmd (r_cmds res) ++ deliveries_of c true (e :: rs) ++ j)
+      | _ => (r_store res, r_q res, map JCmd (r_cmds res))
+      end
+  end.
+
+(* removeSessionLocked(id): queue Clean, session Remove, UnsubscribeAll *)
+Definition remove_session (id : cid) (b : broker) : broker * list rcmd :=
+  let qcmd := match b_get id b with
+              | Some x => match bc_q x with Some _ => [CDel (queue_key id)] | None => [] end
+              | None => []
+              end in
+  let cmds := qcmd ++ [CDel (sess_key id); CDel (sub_key id)] in
+  let cl := match b_get id b with
+            | Some x => aset id {| bc_online := false; bc_q := None; bc_ua := bc_ua x |} (b_clients b)
+            | None => b_clients b
+            end in
+  ({| b_store := exec_all (b_store b) cmds; b_subs := sp_del_client id (b_subs b); b_clients := cl |}, cmds).
+
+Definition SESSION_CAP : N := 7200.
+
+Definition with_q (x : bclient) (q : rq) : bclient := {| bc_online := bc_online x; bc_q := Some q; bc_ua := bc_ua x |}.
+
+(* one client event: new state and journal.  An event of a client that is not connected
+   (or a CONNECT of a connected one) is not generated by the harness; it is a no-op here. *)
+Definition bstep (fx : fixes) (b : broker) (ev : bevent) : broker * list jentry :=
+  let online c := match b_get c b with Some x => bc_online x | None => false end in
+  match ev with
+  | EConnect c clean expiry pids =>
+      if online c then (b, []) else
+      match sess_get c (b_store b) with
+      | None => (b, [])
+      | Some (old_id, old_exp) =>
+          let exists_ := negb (is_empty old_id) in
+          (* an absent session has connected_at = 1970 and expiry 0: expired *)
+          let resume0 := exists_ && negb (old_exp =? 0) && negb clean in
+          let old := b_get c b in
+          let have := match old with
+                      | Some x => match bc_q x, bc_ua x with Some _, Some _ => true | _, _ => false end
+                      | None => false
+                      end in
+          let resume := resume0 && have in
+          (* terminate the old session unless it is resumed (an inconsistent one is just replaced) *)
+          let '(b1, cmds1) := if resume0 then (b, []) else remove_session old_id b in
+          let exp := N.min expiry SESSION_CAP in
+          if resume then
+            match old with
+            | Some x =>
+                match bc_q x with
+                | Some q =>
+                    let ri := rq_init false true MAXPACKET (b_store b1) q in
+                    let cmds := cmds1 ++ r_cmds ri ++ [sess_set_cmd c exp] in
+                    let s2 := exec (r_store ri) (sess_set_cmd c exp) in
+                    let '(s3, q3, j3) := poll_inflight 3 c s2 (r_q ri) in
+                    let '(s4, q4, j4) :=
+                      if (rq_cur q3 <? rq_len q3)%Z then poll_new c pids s3 q3 else (s3, q3, []) in
+                    (b_set c {| bc_online := true; bc_q := Some q4; bc_ua := bc_ua x |} (b_with_store s4 b1),
+                     map JCmd cmds ++ [JOut (OConnack c true)] ++ j3 ++ j4)
+                | None => (b, [])
+                end
+            | None => (b, [])
+            end
+          else
+            let q0 := rq_new MAXQ IFEXP c in
+            let ri := rq_init true true MAXPACKET (b_store b1) q0 in
+            let cmds := cmds1 ++ r_cmds ri ++ [CDel (unack_key c); sess_set_cmd c exp] in
+            let s2 := exec_all (r_store ri) [CDel (unack_key c); sess_set_cmd c exp] in
+            let '(s3, q3, j3) := poll_inflight 3 c s2 (r_q ri) in
+            (b_set c {| bc_online := true; bc_q := Some q3; bc_ua := Some [] |} (b_with_store s3 b1),
+             map JCmd cmds ++ [JOut (OConnack c false)] ++ j3)
+      end
+  | EClose c =>
+      if negb (online c) then (b, []) else
+      match b_get c b, sess_get c (b_store b) with
+      | Some x, Some (_, exp) =>
+          let x' := {| bc_online := false;
+                       bc_q := match bc_q x with Some q => Some (r_q (rq_close (b_store b) q)) | None => None end;
+                       bc_ua := bc_ua x |} in
+          let b' := b_set c x' b in
+          if exp =? 0 then let '(b2, cmds) := remove_session c b' in (b2, map JCmd cmds)
+          else (b', [])
+      | _, _ => (b, [])
+      end
+  | ESubscribe c pid subs =>
+      if negb (online c) then (b, []) else
+      let cmds := sop_cmds fx (SSub c subs) in
+      ({| b_store := exec_all (b_store b) cmds; b_subs := fold_left spec_step (map (OSub c) subs) (b_subs b);
+          b_clients := b_clients b |},
+       map JCmd cmds ++ [JOut (OSuback c pid)])
+  | EUnsubscribe c pid topics =>
+      if negb (online c) then (b, []) else
+      (* the handler calls Unsubscribe once per topic *)
+      let cmds := concat (map (fun t => sop_cmds fx (SUnsub c [t])) topics) in
+      ({| b_store := exec_all (b_store b) cmds; b_subs := fold_left spec_step (map (OUnsub c) topics) (b_subs b);
+          b_clients := b_clients b |},
+       map JCmd cmds ++ [JOut (OUnsuback c pid)])
+  | EPublish c qos pid topic payload =>
+      if negb (online c) then (b, []) else
+      match b_get c b with
+      | Some x =>
+          let cache := match bc_ua x with Some u => u | None => [] end in
+          let dup := (qos =? 2) && memN pid cache in
+          let ucmds := if (qos =? 2) && negb dup then [CHSet (unack_key c) [(dec pid, BRaw ONE)]] else [] in
+          let x' := if (qos =? 2) && negb dup
+                    then {| bc_online := bc_online x; bc_q := bc_q x; bc_ua := Some (pid :: cache) |} else x in
+          let b1 := b_set c x' (b_with_store (exec_all (b_store b) ucmds) b) in
+          let '(cl, s2, dcmds) :=
+            if dup then (b_clients b1, b_store b1, [])
+            else deliver topic payload qos c (b_subs b1) (b_clients b1) (b_store b1) in
+          let ack := if qos =? 1 then [JOut (OPuback c pid)] else if qos =? 2 then [JOut (OPubrec c pid)] else [] in
+          ({| b_store := s2; b_subs := b_subs b1; b_clients := cl |}, map JCmd (ucmds ++ dcmds) ++ ack)
+      | None => (b, [])
+      end
+  | EPubrel c pid =>
+      if negb (online c) then (b, []) else
+      match b_get c b with
+      | Some x =>
+          let cmds := [CHDel (unack_key c) [dec pid]] in
+          let x' := {| bc_online := bc_online x; bc_q := bc_q x;
+                       bc_ua := match bc_ua x with Some u => Some (delN pid u) | None => None end |} in
+          (b_set c x' (b_with_store (exec_all (b_store b) cmds) b), map JCmd cmds ++ [JOut (OPubcomp c pid)])
+      | None => (b, [])
+      end
+  | EPoll c pids =>
+      if negb (online c) then (b, []) else
+      match b_get c b with
+      | Some x => match bc_q x with
+                  | Some q => let '(s', q', j) := poll_new c pids (b_store b) q in
+                              (b_set c (with_q x q') (b_with_store s' b), j)
+                  | None => (b, [])
+                  end
+      | None => (b, [])
+      end
+  | EPuback c pid | EPubcomp c pid =>
+      if negb (online c) then (b, []) else
+      match b_get c b with
+      | Some x => match bc_q x with
+                  | Some q => let res := rq_remove pid (b_store b) q in
+                              (b_set c (with_q x (r_q res)) (b_with_store (r_store res) b), map JCmd (r_cmds res))
+                  | None => (b, [])
+                  end
+      | None => (b, [])
+      end
+  | EPubrec c pid =>
+      if negb (online c) then (b, []) else
+      match b_get c b with
+      | Some x => match bc_q x with
+                  | Some q => let res := rq_replace {| e_tag := 0; e_at := 0; e_expiry := None; e_body := QRel pid |} (b_store b) q in
+                              (b_set c (with_q x (r_q res)) (b_with_store (r_store res) b),
+                               map JCmd (r_cmds res) ++ [JOut (OPubrel c pid)])
+                  | None => (b, [])
+                  end
+      | None => (b, [])
+      end
+  end.
+
+Fixpoint brun (fx : fixes) (b : broker) (h : list bevent) : broker * list jentry :=
+  match h with
+  | [] => (b, [])
+  | ev :: r => let '(b1, j1) := bstep fx b ev in
+               let '(b2, j2) := brun fx b1 r in (b2, j1 ++ j2)
+  end.
+
+Definition journal (fx : fixes) (h : list bevent) : list jentry := snd (brun fx broker0 h).
+
+(* ---------- recover: server.init on a store ---------- *)
+(* the sessions found by SCAN MATCH session:* + HMGET: (client id, expiry) *)
+Fixpoint stored_sessions (s : rstore) (keys : list str) : list (cid * N) :=
+  match keys with
+  | [] => []
+  | k :: r => match hgetall k s with
+              | Some h => (raw_of (aget F_CLIENT_ID h),
+                           match undec (raw_of (aget F_EXPIRY h)) 0 with Some n => n | None => 0 end) :: stored_sessions s r
+              | None => stored_sessions s r
+              end
+  end.
+
+Definition has_wrongtype_session (s : rstore) : bool :=
+  existsb (fun kv => has_prefix_str SESS_PREFIX (fst kv) && match snd kv with RList _ => true | RHash _ => false end) s.
+
+(* None = start-up fails *)
+Definition recover (fx : fixes) (s : rstore) : option broker :=
+  if has_wrongtype_session s then None else
+  let sess := stored_sessions s (scan_prefix SESS_PREFIX s) in
+  let cids := map fst sess in
+  match load_subs fx s cids with
+  | None => None
+  | Some ops =>
+      Some {| b_store := s;
+              b_subs := fold_left spec_step ops [];
+              b_clients := fold_left (fun cl c =>
+                             aset c {| bc_online := false;
+                                       bc_q := Some (rq_new MAXQ IFEXP c);
+                                       bc_ua := Some (if fix_unack fx then stored_unack c s else []) |} cl) cids [] |}
+  end.
